@@ -168,7 +168,7 @@ impl std::fmt::Display for Pieces<'_> {
             if self.panic_at == i as i64 + 1 {
                 panic!("{}", CB_PANIC);
             }
-            f.write_str(s_of(p))?;
+            write_piece(f, s_of(p))?;
         }
         if self.fail_at == self.pieces.len() as i64 + 1 {
             return Err(std::fmt::Error);
@@ -177,6 +177,17 @@ impl std::fmt::Display for Pieces<'_> {
             panic!("{}", CB_PANIC);
         }
         Ok(())
+    }
+}
+
+/// A piece that is one char is handed over with `write_char` (what `write!(f, "{}", ch)` and padding do),
+/// anything else with `write_str`.
+pub fn write_piece(f: &mut std::fmt::Formatter<'_>, s: &str) -> std::fmt::Result {
+    use std::fmt::Write as _;
+    let mut cs = s.chars();
+    match (cs.next(), cs.next()) {
+        (Some(c), None) => f.write_char(c),
+        _ => f.write_str(s),
     }
 }
 
